@@ -247,5 +247,10 @@ func (*treePipeline) handlePipelineErr(ctx context.Context, echs ...<-chan error
 			return nil
 		})
 	}
-	return eg.Wait()
+	if err := eg.Wait(); err != nil {
+		return err
+	}
+	// every stage has closed its error channel; if that happened because the caller's context was cancelled,
+	// the stages stopped early and the result is incomplete
+	return ctx.Err()
 }
